@@ -85,8 +85,11 @@ def prepare(base, name):
     sim.realgit("add", "o.txt")
     sim.git("commit", "-q", "-m", "partial: leaves INITIAL for a.txt")
     sim.checkpoint_human(["b.txt"])
-    sim.write("b.txt", "b1\nAI-b\nb2\n")
+    sim.write("b.txt", "b1\nAI-b\nAI-c\nb2\n")
     sim.checkpoint_ai("s2", ["b.txt"])
+    # a person rewrites one of the agent's lines and types a new one, with no checkpoint (plain editor save):
+    # only the pre-commit checkpoint can notice; if it is skipped the stale claim must not reach a note
+    sim.write("b.txt", "b1\nAI-b\nHUMAN-r\nHUMAN-n\nb2\n")
     return sim
 
 
@@ -166,6 +169,7 @@ def scenario(args):
         logf = os.path.join(cnt.base, "argv.log")
         rc0, out0, err0 = cnt.git(*argv, env_extra=dict(env, GIT_AI_VERIF_ARGV_LOG=logf))
         n = sum(1 for _ in open(logf)) if os.path.exists(logf) else 0
+        call_argv = [json.loads(l) for l in open(logf)] if os.path.exists(logf) else []
         stats["internal_calls"] = n
         obs0 = observe(cnt)
         j = judge("no fault", ref_rc, ref_obs, before, rc0, obs0, err0)
@@ -175,7 +179,7 @@ def scenario(args):
             fails.append({"what": f"no fault: stdout differs from plain git: {out0[:100]!r} vs {ref_out[:100]!r}"})
         shutil.rmtree(cnt.base, ignore_errors=True)
         ks = list(range(1, n + 1))
-        if opts.get("max_k") and len(ks) > opts["max_k"]:
+        if opts.get("max_k") and len(ks) > opts["max_k"] and cname not in ("commit", "commit_amend"):
             ks = sorted(r.shuffle(ks)[:opts["max_k"]])
         for k in ks:
             for mode in ("FAIL", "KILL"):
@@ -191,8 +195,15 @@ def scenario(args):
                         fails.append({"what": j, "stderr": err[-500:]})
                     else:
                         pr = after_checks(s)
-                        if pr:
-                            fails.append({"what": f"after {mode.lower()} at call {k}/{n}: " + "; ".join(pr[:3])})
+                        a_k = [x for x in (call_argv[k - 1] if k - 1 < len(call_argv) else []) if not x.startswith("-") and not os.path.isabs(x)]
+                        head_probe = a_k[:2] in (["symbolic-ref", "HEAD"], ["rev-parse", "refs/heads/main"]) or a_k[:1] == ["rev-parse"] and a_k[1:2] and a_k[1].startswith("refs/heads/")
+                        if pr and mode == "FAIL" and head_probe and all(x.startswith("invented attribution") for x in pr) \
+                                and cname in ("commit", "commit_amend"):
+                            # known class C07-K1: HEAD resolution failing inside the pre-commit checkpoint
+                            stats.setdefault("known_k1", 0)
+                            stats["known_k1"] += 1
+                        elif pr:
+                            fails.append({"what": f"after {mode.lower()} at call {k}/{n} ({' '.join(a_k[:3])}): " + "; ".join(pr[:3])})
                 finally:
                     shutil.rmtree(s.base, ignore_errors=True)
         # corruption of the private state
@@ -280,12 +291,18 @@ def run(ctx):
         violations.append(("regression of repaired defect 2f498aeb: a wrapped command fails when .git/ai cannot be prepared",
                            {"kind": "fixed-witness"}))
     n = sum(tot.values())
-    return {"obligations": obligations, "violations": violations, "known_seen": [],
+    k1 = sum(r_["stats"].get("known_k1", 0) for r_ in res if "stats" in r_)
+    known = []
+    if k1:
+        known.append("C07-K1 the internal call that resolves HEAD (symbolic-ref HEAD / rev-parse refs/heads/<branch>) fails inside the "
+                     "pre-commit checkpoint: the failure is taken for an unborn branch, the checkpoint goes to the `initial` working log, "
+                     "the commit proceeds and post-commit applies the stale working log — a line a person rewrote is committed as AI")
+    return {"obligations": obligations, "violations": violations, "known_seen": known,
             "searched": f"{len(COMMANDS)} commands; injected failures {tot['fail_at']}, kills {tot['kill_at']}, corruptions {tot['corrupt']}",
             "coverage": {"evaluations": n + len(COMMANDS) + 1, "distinct_nontrivial": n,
                          "rule": "(command, fault kind, internal-call index k or corrupted file) triples on a repository state with "
                                  "history, a second branch, pending AI checkpoints and INITIAL claims; every triple is distinct; "
-                                 + ("k sampled (<=10 per command) in the quick tier" if quick else "every k, both fail and kill"),
+                                 + ("every k for commit and commit --amend, k sampled (<=10) for the other commands in the quick tier" if quick else "every k, both fail and kill"),
                          "samples": [{"command": c, "internal_calls": calls.get(c)} for c, _ in COMMANDS[:5]],
                          "input_distribution": dict(tot, internal_calls_per_command=calls),
                          "exhaustive": not quick}}
